@@ -2,6 +2,8 @@ use crate::engine::CheckDef;
 
 pub mod common;
 pub mod c01;
+pub mod c03;
+pub mod c04;
 pub mod c05;
 pub mod c06;
 pub mod c07;
@@ -18,7 +20,7 @@ pub mod c19;
 pub mod c20;
 
 pub fn all() -> Vec<&'static CheckDef> {
-    vec![&c01::DEF, &c01::DEF_C02, &c05::DEF, &c06::DEF, &c12::DEF, &c11::DEF, &c10::DEF, &c19::DEF, &c07::DEF, &c08::DEF, &c13::DEF, &c14::DEF, &c16::DEF, &c17::DEF, &c15::DEF, &c20::DEF]
+    vec![&c01::DEF, &c01::DEF_C02, &c05::DEF, &c06::DEF, &c12::DEF, &c11::DEF, &c10::DEF, &c19::DEF, &c07::DEF, &c08::DEF, &c13::DEF, &c14::DEF, &c16::DEF, &c17::DEF, &c15::DEF, &c20::DEF, &c04::DEF, &c03::DEF]
 }
 
 pub fn find(id: &str) -> Option<&'static CheckDef> {
